@@ -30,7 +30,20 @@ type Collector struct {
 	exhaustive  *bool
 	notes       []string
 	known       map[string]int64 // known-finding signature -> times observed
+	discard     bool             // fuzz workers: count nothing (millions of executions, no evidence file)
 }
+
+// NewDiscardCollector returns a collector that records nothing; used by the
+// native fuzz targets, whose executions are counted by the fuzzing engine.
+func NewDiscardCollector() *Collector {
+	c := NewCollector("discard", "")
+	c.discard = true
+	return c
+}
+
+// journalOff disables the per-case journal file (native fuzz targets: the
+// engine itself keeps the input that killed a worker).
+var journalOff bool
 
 func NewCollector(name, rule string) *Collector {
 	return &Collector{
@@ -48,6 +61,9 @@ func NewCollector(name, rule string) *Collector {
 // property's stated non-triviality rule; sample (may be nil) is a
 // human-readable rendering kept for the first few and then sparsely.
 func (c *Collector) Case(canon string, nontrivial bool, sample any, classes ...string) {
+	if c.discard {
+		return
+	}
 	c.mu.Lock()
 	defer c.mu.Unlock()
 	c.evaluations++
@@ -72,30 +88,45 @@ func (c *Collector) Case(canon string, nontrivial bool, sample any, classes ...s
 }
 
 func (c *Collector) Class(k string) {
+	if c.discard {
+		return
+	}
 	c.mu.Lock()
 	c.classes[k]++
 	c.mu.Unlock()
 }
 
 func (c *Collector) ClassN(k string, n int64) {
+	if c.discard {
+		return
+	}
 	c.mu.Lock()
 	c.classes[k] += n
 	c.mu.Unlock()
 }
 
 func (c *Collector) Exclude(k string) {
+	if c.discard {
+		return
+	}
 	c.mu.Lock()
 	c.exclusions[k]++
 	c.mu.Unlock()
 }
 
 func (c *Collector) Known(sig string) {
+	if c.discard {
+		return
+	}
 	c.mu.Lock()
 	c.known[sig]++
 	c.mu.Unlock()
 }
 
 func (c *Collector) Note(s string) {
+	if c.discard {
+		return
+	}
 	c.mu.Lock()
 	c.notes = append(c.notes, s)
 	c.mu.Unlock()
@@ -130,7 +161,7 @@ type collectorDump struct {
 // Flush writes the collector to $VERIF_OUT (if set). Register with t.Cleanup.
 func (c *Collector) Flush(t testing.TB) {
 	dir := os.Getenv("VERIF_OUT")
-	if dir == "" {
+	if dir == "" || journalOff {
 		return
 	}
 	c.mu.Lock()
@@ -195,7 +226,7 @@ func (c *Collector) RequireClasses(t testing.TB, keys ...string) {
 // process-killing failure still leaves a replayable description behind.
 func journal(format string, args ...any) {
 	dir := os.Getenv("VERIF_OUT")
-	if dir == "" {
+	if dir == "" || journalOff {
 		return
 	}
 	fn := filepath.Join(dir, fmt.Sprintf("current.%d", os.Getpid()))
